@@ -409,7 +409,8 @@ def extend(rep, pid, tier, r):
                 fm['C03'] += refusal_oracles(case, w, data, aff, dim, pieces, r)
             allf = list(fs.get(pid, [])) + list(fm.get(pid, []))
             for f in allf[:1]:
-                rep.failure(f, {'tag': region, 'suite': 'wrapper', 'case': case, 'dim': dim})
+                # the C13 clauses of this suite are all about inputs being left alone: never attributed to a finding about results
+                rep.failure(f, {'tag': region + ('/inputs' if pid == 'C13' else ''), 'suite': 'wrapper', 'case': case, 'dim': dim})
     if pid in ('C03', 'C04', 'C05'):
         from . import check_wrapcorr
         check_wrapcorr.corr(rep, pid, tier, r)
